@@ -375,6 +375,32 @@ let op_stmts (args : str list) : str list =
        | OScope -> ["scope"])
   | _ -> ["bad-args"]
 
+(* function block with declaration blocks: "<hex text>" -> parsed <vars> <edges> <statements> | rejected | fuel | scope *)
+let sx_leaf = function
+  | LfInt (neg, v) -> "i:" ^ (if neg then "-" else "") ^ dec_of_n v
+  | LfBool b -> if b then "b:true" else "b:false"
+  | LfStr c -> "s:" ^ hex_of_text c
+  | LfName n -> "n:" ^ lname n
+let sx_dinit = function
+  | DSimple (ty, None) -> "(simple " ^ lname ty ^ " -)"
+  | DSimple (ty, Some c) -> "(simple " ^ lname ty ^ " " ^ sx_leaf c ^ ")"
+  | DEnumType (ty, v) -> "(enumtype " ^ lname ty ^ " " ^ lname v ^ ")"
+  | DLate ty -> "(late " ^ lname ty ^ ")"
+let sx_class = function DcInput -> "input" | DcOutput -> "output" | DcInOut -> "inout" | DcExternal -> "external" | DcVar -> "var"
+let sx_qual = function DqNone -> "unspec" | DqConst -> "const" | DqRetain -> "retain" | DqNonRetain -> "nonretain"
+let op_fbd (args : str list) : str list =
+  match args with
+  | [h] ->
+      (match parse_fbd_text (text_of_hex h) with
+       | O2Parsed (ds, l) ->
+           let vars = List.filter_map (function DVar (n, c, q, i) -> Some ("(var " ^ lname n ^ " " ^ sx_class c ^ " " ^ sx_qual q ^ " " ^ sx_dinit i ^ ")") | _ -> None) ds in
+           let edges = List.filter_map (function DEdge (n, r, q) -> Some ("(edge " ^ lname n ^ " " ^ (if r then "r" else "f") ^ " " ^ sx_qual q ^ ")") | _ -> None) ds in
+           ["parsed"; "(" ^ S.concat " " vars ^ ")"; "(" ^ S.concat " " edges ^ ")"; sx_list l]
+       | O2Rejected -> ["rejected"]
+       | O2Fuel -> ["fuel"]
+       | O2Scope -> ["scope"])
+  | _ -> ["bad-args"]
+
 (* renderer model: "<hex text>" -> the significant tokens (kind:texthex) the renderer model writes for the statement list
    the parser model reads from the text | notparsed *)
 let op_strender (args : str list) : str list =
@@ -457,7 +483,7 @@ let op_latebound (args : str list) : str list =
 
 let ops : (str * (str list -> str list)) list ref =
   ref [ ("lex", op_lex); ("semtok", op_semtok); ("decode", op_decode); ("lit", op_lit); ("cycle", op_cycle);
-        ("lsp", op_lsp); ("cli", op_cli); ("rule", op_rule); ("expr", op_expr); ("scope", op_scope); ("stmts", op_stmts); ("strender", op_strender); ("rules", op_rules); ("latebound", op_latebound) ]
+        ("lsp", op_lsp); ("cli", op_cli); ("rule", op_rule); ("expr", op_expr); ("scope", op_scope); ("stmts", op_stmts); ("strender", op_strender); ("rules", op_rules); ("latebound", op_latebound); ("fbd", op_fbd) ]
 
 
 let () =
